@@ -53,17 +53,9 @@ theorem StrAcc.jstring {b : Bytes} (h : StrAcc b) : JString b := by
 def NumSound (pn : Bytes → Option Nat) (Num : Bytes → Prop) : Prop :=
   ∀ s n, pn s = some n → ∃ p rest, s = p ++ rest ∧ p.length = n ∧ Num p
 
-/-- what the current `parseNumber` accepts -/
-def NumAcc (p : Bytes) : Prop := ∃ rest, NumberLoose p rest
-
-theorem numSound_current : NumSound parseNumber NumAcc := by
+theorem numSound_parseNumber : NumSound parseNumber Number := by
   intro s n h
   obtain ⟨p, rest, hs, hn, _, hp⟩ := (parseNumber_exact s n).1 h
-  exact ⟨p, rest, hs, hn, rest, hp⟩
-
-theorem numSound_fixed : NumSound parseNumberFixed Number := by
-  intro s n h
-  obtain ⟨p, rest, hs, hn, _, hp⟩ := (parseNumberFixed_exact s n).1 h
   exact ⟨p, rest, hs, hn, hp⟩
 
 /-- the grammar token a model token stands for -/
